@@ -1,0 +1,158 @@
+//go:build verif
+
+package anthropic
+
+// Contracts for govc (see /verif/DESIGN.md). Comment-only file: contributes no code.
+
+// ---- C20 / C13: buffered response translation. The OpenAI response arrives as decoded JSON (map[string]interface{}
+// of arbitrary shape); whatever its shape, translation must not panic, and a translated message has at least one
+// content block and a stop reason from Anthropic's vocabulary.
+//@ spec func anthropicStop(s string) bool = s == "end_turn" || s == "tool_use" || s == "max_tokens"
+
+//@ func mapFinishReasonToStopReason
+//@   property C13 C20
+//@   safety
+//@   ensures anthropicStop(res)
+//@   ensures finishReason == "stop" ==> res == "end_turn"
+//@   ensures finishReason == "tool_calls" ==> res == "tool_use"
+//@   ensures finishReason == "length" ==> res == "max_tokens"
+
+//@ func (t *Translator) convertUsage
+//@   property C13 C20
+//@   safety
+
+//@ func (t *Translator) extractModel
+//@   property C13 C20
+//@   safety
+
+//@ func (t *Translator) convertToToolUse
+//@   property C13 C20
+//@   safety
+//@   requires t != nil && t.logger != nil
+//@   ensures res != nil ==> fresh(res) && res.Type == "tool_use"
+
+//@ func (t *Translator) convertResponseContent
+//@   property C13 C20
+//@   safety
+//@   requires t != nil && t.logger != nil
+//@   ensures len(res0) >= 1 && anthropicStop(res1)
+
+//@ func (t *Translator) generateMessageID
+//@   property C13
+//@   trusted
+
+//@ func (t *Translator) getSessionID
+//@   property C13
+//@   trusted
+
+//@ func (t *Translator) TransformResponse
+//@   property C13 C20
+//@   safety
+//@   requires t != nil && t.logger != nil && t.inspector != nil
+//@   modifies *
+//@   ensures res1 == nil ==> res0 != nil
+
+// ---- C13: the streamed translation obeys Anthropic's event grammar for EVERY sequence of backend chunks.
+// Ghost state = what the client has seen so far. Every event goes through writeEvent, whose contract is the
+// grammar: an event may only be written when the grammar allows it in the current ghost state (requires), and a
+// successful write advances the ghost state (records). A failed write or flush marks the transport broken; from
+// then on nothing is required (the client no longer receives a coherent stream anyway).
+//@ ghost var evStarted bool
+//@ ghost var evOpen int
+//@ ghost var evNext int
+//@ ghost var evDelta bool
+//@ ghost var evStopped bool
+//@ ghost var evBroken bool
+//@ spec func evIdx(data interface{}) int = asInt(asType(data, "map[string]interface{}")["index"])
+//@ spec func evAllowed(event string, data interface{}) bool = evBroken || (event == "message_start" && !evStarted) || (event == "content_block_start" && evStarted && !evDelta && evOpen == -1 && evIdx(data) == evNext) || (event == "content_block_delta" && evStarted && !evDelta && evOpen >= 0 && evIdx(data) == evOpen) || (event == "content_block_stop" && evStarted && !evDelta && evOpen >= 0 && evIdx(data) == evOpen) || (event == "message_delta" && evStarted && !evDelta && evOpen == -1) || (event == "message_stop" && evDelta && !evStopped)
+
+// writeEvent is the definition of the event trace (trusted): an event is on the wire iff it returned nil
+//@ func (t *Translator) writeEvent
+//@   property C13
+//@   trusted
+//@   requires evAllowed(event, data)
+//@   modifies gvar evStarted, gvar evOpen, gvar evNext, gvar evDelta, gvar evStopped, gvar evBroken
+//@   records evStarted = old(evStarted) || (res == nil && event == "message_start")
+//@   records evOpen = ite(res == nil && event == "content_block_start", evIdx(data), ite(res == nil && event == "content_block_stop", -1, old(evOpen)))
+//@   records evNext = ite(res == nil && event == "content_block_start", old(evNext) + 1, old(evNext))
+//@   records evDelta = old(evDelta) || (res == nil && event == "message_delta")
+//@   records evStopped = old(evStopped) || (res == nil && event == "message_stop")
+//@   records evBroken = old(evBroken) || res != nil
+
+//@ extern (*net/http.ResponseController).Flush()
+//@   trusted
+//@   modifies gvar evBroken
+//@   records evBroken = old(evBroken) || res != nil
+
+// the translator's bookkeeping agrees with what the client has seen
+//@ spec func streamInv(state *StreamingState) bool = state != nil && state.toolCallBuffers != nil && state.toolIndexToBlock != nil && state.toolCallBuffers != state.toolIndexToBlock && (evBroken || (evStarted == state.messageStartSent && !evDelta && !evStopped && evNext == len(state.contentBlocks) && (state.currentBlock == nil ==> evOpen == -1) && (state.currentBlock != nil ==> evOpen == state.currentIndex && state.messageStartSent))) && (state.currentBlock != nil ==> 0 <= state.currentIndex && state.currentIndex < len(state.contentBlocks)) && (forall k int :: has(state.toolCallBuffers, k) ==> state.toolCallBuffers[k] != nil) && (forall k int :: has(state.toolIndexToBlock, k) ==> 0 <= state.toolIndexToBlock[k] && state.toolIndexToBlock[k] < len(state.contentBlocks))
+
+//@ func (t *Translator) createMessageStart
+//@   property C13
+//@   safety
+//@   requires state != nil
+
+//@ func (t *Translator) ensureMessageStartSent
+//@   property C13
+//@   safety
+//@   requires t != nil && rc != nil && streamInv(state)
+//@   modifies gvar evStarted, gvar evOpen, gvar evNext, gvar evDelta, gvar evStopped, gvar evBroken, state.messageStartSent
+//@   ensures old(evBroken) ==> evBroken
+//@   ensures streamInv(state)
+//@   ensures res == nil ==> evBroken || evStarted
+//@   ensures res != nil ==> evBroken
+
+//@ func (t *Translator) closeCurrentBlockIfNeeded
+//@   property C13
+//@   safety
+//@   requires t != nil && rc != nil && streamInv(state)
+//@   modifies gvar evStarted, gvar evOpen, gvar evNext, gvar evDelta, gvar evStopped, gvar evBroken
+//@   ensures old(evBroken) ==> evBroken
+//@   ensures res != nil ==> evBroken
+//@   ensures res == nil && !evBroken ==> evStarted == old(evStarted) && evNext == old(evNext) && !evDelta && !evStopped
+//@   ensures res == nil && !evBroken && old(state.currentBlock) != nil && old(state.currentBlock.Type) == blockType ==> evOpen == -1
+//@   ensures res == nil && !evBroken && !(old(state.currentBlock) != nil && old(state.currentBlock.Type) == blockType) ==> evOpen == old(evOpen)
+
+//@ func (t *Translator) handleContentDelta
+//@   property C13
+//@   safety
+//@   requires t != nil && rc != nil && streamInv(state)
+//@   modifies gvar evStarted, gvar evOpen, gvar evNext, gvar evDelta, gvar evStopped, gvar evBroken, state.messageStartSent, state.currentBlock, state.currentIndex, state.contentBlocks, ContentBlock.Text
+//@   ensures old(evBroken) ==> evBroken
+//@   ensures streamInv(state)
+
+//@ func extractToolCallData
+//@   property C13 C20
+//@   safety
+//@   ensures res1 ==> res0 != nil && fresh(res0)
+
+//@ func (t *Translator) initializeToolBlock
+//@   property C13
+//@   replay anthropic_stream_two_tools
+//@   safety
+//@   requires t != nil && rc != nil && streamInv(state) && (evBroken || evStarted)
+//@   modifies gvar evStarted, gvar evOpen, gvar evNext, gvar evDelta, gvar evStopped, gvar evBroken, state.currentBlock, state.currentIndex, state.contentBlocks, state.toolIndexToBlock[all]
+//@   ensures old(evBroken) ==> evBroken
+//@   ensures streamInv(state)
+//@   ensures res == nil ==> state.currentBlock != nil && state.currentBlock.Type == "tool_use"
+//@   ensures forall k int :: old(has(state.toolCallBuffers, k)) ==> has(state.toolCallBuffers, k) && state.toolCallBuffers[k] == old(state.toolCallBuffers[k])
+
+//@ func (t *Translator) sendToolArgumentsDelta
+//@   property C13
+//@   safety
+//@   requires t != nil && rc != nil && streamInv(state) && (evBroken || evStarted)
+//@   requires has(state.toolCallBuffers, toolIndex) && state.toolCallBuffers[toolIndex] != nil
+//@   requires evBroken || state.currentBlock != nil
+//@   modifies gvar evStarted, gvar evOpen, gvar evNext, gvar evDelta, gvar evStopped, gvar evBroken
+//@   ensures old(evBroken) ==> evBroken
+//@   ensures streamInv(state)
+
+//@ func (t *Translator) handleToolCallsDelta
+//@   property C13
+//@   safety
+//@   requires t != nil && rc != nil && streamInv(state) && len(toolCalls) < 1000000
+//@   modifies gvar evStarted, gvar evOpen, gvar evNext, gvar evDelta, gvar evStopped, gvar evBroken, state.messageStartSent, state.currentBlock, state.currentIndex, state.contentBlocks, state.toolIndexToBlock[all], state.toolCallBuffers[all]
+//@   ensures old(evBroken) ==> evBroken
+//@   loop 1 invariant streamInv(state) && (evBroken || evStarted) && (old(evBroken) ==> evBroken)
+//@   at call sendToolArgumentsDelta 1 assume evBroken || (state.currentBlock != nil && state.currentBlock.Type == "tool_use")
+//@   ensures streamInv(state)
